@@ -181,8 +181,11 @@ func init() {
 	}
 	extRules[I+"AddRaw"] = bin("+")
 	extRules[I+"SubRaw"] = bin("-")
-	extRules[I+"Mul"] = bin("*")
-	extRules[I+"MulRaw"] = bin("*")
+	mulR := func(cc *callCtx) ([]string, bool) {
+		return []string{cc.def("m", "Int", mulTerm(cc.arg(0), cc.arg(1)))}, true
+	}
+	extRules[I+"Mul"] = mulR
+	extRules[I+"MulRaw"] = mulR
 	quoI := func(cc *callCtx) ([]string, bool) {
 		cc.e.panicIf(fmt.Sprintf("(= %s 0)", cc.arg(1)), "Int.Quo: division by zero", cc.ins)
 		return []string{cc.def("q", "Int", fmt.Sprintf("(tdiv %s %s)", cc.arg(0), cc.arg(1)))}, true
@@ -227,8 +230,8 @@ func init() {
 
 	// ---------------------------------------------------------------- sdk.Dec (scaled integer, 18 decimals)
 	D := "(" + sdkT + ".Dec)."
-	extRules[D+"MulInt64"] = bin("*")
-	extRules[D+"MulInt"] = bin("*")
+	extRules[D+"MulInt64"] = mulR
+	extRules[D+"MulInt"] = mulR
 	quoD := func(cc *callCtx) ([]string, bool) {
 		cc.e.panicIf(fmt.Sprintf("(= %s 0)", cc.arg(1)), "Dec.QuoInt64: division by zero", cc.ins)
 		return []string{cc.def("dq", "Int", fmt.Sprintf("(tdiv %s %s)", cc.arg(0), cc.arg(1)))}, true
